@@ -327,7 +327,7 @@ def random_layout(rng, delim, comment, nlines, want_err=False, python=False, met
             break
         k = rng.choice(kinds)
         can_cont = L.last_entry_line == L.line and L.line > 0 and not L.mixed and L.delim != "" and L.exps and L.exps[-1]["pieces"] is not None \
-            and len(L.exps[-1]["pieces"]) < 3 and not (meta and L.exps[-1]["ca"])
+            and len(L.exps[-1]["pieces"]) < 3 and not (meta and L.exps[-1]["ca"]) and not (meta and L.exps[-1]["pieces"][0][1] == 0)
         if k == "cont" and not can_cont:
             k = "entry"
         if k == "blank":
